@@ -3,6 +3,7 @@ BUILDS = [
     ("ds", (), "release", False),
     ("ds", ("unsafe",), "release", False),
     ("dc", (), "release", False),
+    ("ring", (), "release", True),
     ("win", (), "release", False),
     ("win", ("unsafe",), "release", False),
     ("win", ("unsafe",), "dev", False),
